@@ -5,6 +5,7 @@ import OrbitModel.Proofs.LoadExamples
 import OrbitModel.Proofs.GenEqLoad
 import OrbitModel.Proofs.LoadRejoin
 import OrbitModel.Proofs.LoadMore
+import OrbitModel.Proofs.GenEqLoadJoin
 /-!
 # C15 — `Load(n)` shows the newest `min(n, total)` entries, in order; `n ≤ 0` loads all; never panics
 
@@ -116,5 +117,10 @@ theorem pinned_tree_panicked_or_emptied :
     LoadExample.listing (Store.load LoadExample.acl (LoadExample.fresh 3) (LoadExample.fetchN LoadExample.chain3 4) 4) = .ok [1, 2, 3] ∧
     LoadExample.listing (Store.load LoadExample.acl (LoadExample.fresh 3) (LoadExample.fetchN LoadExample.chain3 (-1)) 0) = .ok [1, 2, 3] :=
   LoadExample.loadPinned_witness
+
+/-- the Go text of `Load` in this run keeps, of a fetched log, only what the store does not hold yet
+(`held`, before the access and signature checks), merges without a trim and asks for the trim only
+after looking at the listing — the steps `loadHead` and `missingFetch` model (F30, F36) -/
+theorem load_steps_tied_to_go_text : Gen.loadJoinOrder = Order.loadJoin := gen_loadJoin_order
 
 end Orbit.C15
